@@ -65,7 +65,15 @@ impl TermWriteCall {
         ensures r.0 == self, r.1 == bytes_written, r.2 == remaining,
     { (self, bytes_written, remaining) }
 }
-pub struct TermWriteTask { pub output: OutputProvider }
+#[verifier::external_body] pub struct HttpStub { _p: () }          // Arc<ClientWithMiddleware>
+#[verifier::external_body] pub struct CacheStub { _p: () }         // Option<Arc<dyn ChunkCache>>
+#[verifier::external_body] pub struct SingleFlightStub { _p: () }  // RangeDownloadSingleFlight
+#[verifier::external_body] pub struct SemaphoreStub { _p: () }     // Arc<Semaphore>
+#[verifier::external_body] pub struct PermitStub { _p: () }
+#[verifier::external_body] pub struct FetchInfoStub { _p: () }     // Arc<HashMap<HexMerkleHash, Vec<CASReconstructionFetchInfo>>>
+pub struct TermWriteTask { pub http_client: HttpStub, pub chunk_cache: CacheStub, pub range_download_single_flight: SingleFlightStub,
+    pub fetch_info: FetchInfoStub, pub semaphore: SemaphoreStub, pub output: OutputProvider }
+#[verifier::external_body] pub fn vx_acquire(s: &SemaphoreStub) -> (r: Result<PermitStub>) { unimplemented!() }
 impl TermWriteTask {
     #[verifier::external_body]
     pub fn clone(&self) -> (r: TermWriteTask) { unimplemented!() }
@@ -131,21 +139,7 @@ pub proof fn lemma_plan_unfold(data: Seq<Seq<u8>>, off: int, total: int, i: int)
 {}
 
 // ======================================================================================================================
-// (0) total_len of both writers
-//@ extract cas_client/src/remote_client.rs in `impl RemoteClient` region reconstruct_file_to_writer
-//@ from-after `) -> Result<u64> {`
-//@ to-before `let mut writer = writer.get_writer_at`
-//@ sig `fn seq_total_len(terms: Vec<CASReconstructionTerm>, byte_range: Option<FileRange>) -> (total_len: u64)`
-//@ epilogue `total_len`
-//@ subst `terms.iter().fold(0, |acc, x| acc + x.unpacked_length as u64)` => `vx_sum_unpacked(&terms)` :: R7 outline of an iterator fold; contract assumed (sum of unpacked_length, no overflow)
-//@ contract
-    requires
-        // plan-validity domain: a byte range has start <= end (else `range.end - range.start` underflows)
-        byte_range matches Some(rg) ==> rg.start <= rg.end,
-        sum_unpacked(terms@, terms@.len() as int) <= u64::MAX,
-    ensures
-        /*@C17*/ total_len == (match byte_range { Some(rg) => rg.end - rg.start, None => sum_unpacked(terms@, terms@.len() as int) }),
-//@ end
+// (0) total_len of the parallel writer (the sequential writer's is inside its whole-body region below)
 //@ extract cas_client/src/remote_client.rs in `impl RemoteClient` region reconstruct_file_to_writer_parallel
 //@ from-after `) -> Result<u64> {`
 //@ to-before `let task_info = TermWriteTask`
@@ -243,10 +237,24 @@ pub proof fn lemma_par_reported(data: Seq<Seq<u8>>, off: int, total: int, n: int
     }
 }
 
+// C17, plan level: for a valid plan both writers — the parallel one under EVERY completion order sigma of its positioned
+// writes — leave the same bytes in the output: concat(term data)[off .. off + w], w = min(total_len, sum(unpacked) - off)
+pub proof fn lemma_c17_writers_agree(data: Seq<Seq<u8>>, off: int, total: int, sigma: Seq<int>)
+    requires plan_ok(data, off, total), is_perm(sigma, data.len() as int), data.len() > 0,
+    ensures
+        /*@C17*/ apply_writes(Seq::<u8>::empty(), par_writes(data, off, total, sigma)) == pieces(data, off, total, data.len() as int),
+        /*@C17*/ off + plan_written(data, off, total, data.len() as int) <= cat(data, data.len() as int).len(),
+        /*@C17*/ pieces(data, off, total, data.len() as int)
+                    == cat(data, data.len() as int).subrange(off, off + plan_written(data, off, total, data.len() as int)),
+        /*@C17*/ range_in_plan(data, off, total) ==> plan_written(data, off, total, data.len() as int) == total,
+{
+    lemma_plan_output(data, off, total, sigma);
+}
+
 // (i-b) parallel writer: joining the tasks in completion order and adding up what each reports
 //@ extract cas_client/src/remote_client.rs in `impl RemoteClient` region reconstruct_file_to_writer_parallel
 //@ from-after `handles.push(handle); });`
-//@ to `Ok(total_written)`
+//@ to-before `}` #11
 //@ sig `fn par_join(mut handles: TaskHandles, progress_updater: ProgressStub) -> (r: Result<u64>)`
 //@ subst `progress_updater.as_ref().inspect(|updater| updater.update(len_written));` => `vx_progress(&progress_updater, len_written);` :: R7 outline: closure over Option<Arc<dyn ProgressUpdater>>; no effect on the output
 //@ subst `format!("Error joining download task {e:?}")` => `vx_fmt_join_error(&e)` :: R7 outline: format! of an error message
@@ -275,41 +283,66 @@ pub proof fn lemma_par_reported(data: Seq<Seq<u8>>, off: int, total: int, n: int
 //@ end
 
 // ======================================================================================================================
-// (ii) sequential writer: the whole fetch-and-write loop, from the budget initialisation to the returned length
+// (ii) sequential writer: the WHOLE body of `reconstruct_file_to_writer` (total_len, fetch-and-write loop, returned length)
+#[verifier::external_body] struct TermFutures { _p: () }        // the lazy iterator of `get_one_term` futures, one per term
+impl TermFutures { uninterp spec fn items(&self) -> Seq<Seq<u8>>; }
+#[verifier::external_body]
+fn vx_buffered_enumerate(futs_iter: TermFutures) -> (r: TermStream)
+    ensures r.items() == futs_iter.items(), r.pos() == 0,
+{ unimplemented!() }
+// what `get_one_term` returns for a term: the unpacked bytes of its chunk range (network / cache: outside reach)
+uninterp spec fn term_payload(term: CASReconstructionTerm) -> Seq<u8>;
+#[verifier::external_body] struct RemoteClient { _p: () }
+impl RemoteClient {
+    spec fn plan_data(&self, terms: Seq<CASReconstructionTerm>) -> Seq<Seq<u8>> {
+        Seq::new(terms.len(), |i: int| term_payload(terms[i]))
+    }
+    // R7 outline of `terms.into_iter().map(|term| get_one_term(..))`: ASSUMED to fetch each term's payload, whose length is
+    // the term's unpacked_length (cold path: checked by get_one_term, see trim_to_term; warm path: cache contract)
+    #[verifier::external_body]
+    fn vx_term_futures(&self, terms: Vec<CASReconstructionTerm>, fetch_info: &FetchInfoStub) -> (r: TermFutures)
+        ensures r.items() == self.plan_data(terms@),
+            forall|i: int| 0 <= i < terms@.len() ==> (#[trigger] self.plan_data(terms@)[i]).len() == terms@[i].unpacked_length,
+    { unimplemented!() }
+
 //@ extract cas_client/src/remote_client.rs in `impl RemoteClient` region reconstruct_file_to_writer
-//@ from-after `.enumerate();`
-//@ to `Ok(total_len)`
-//@ sig `fn seq_write_loop(mut futs_buffered_enumerated: TermStream, total_len: u64, offset_into_first_range: u64, mut writer: OutWriter, progress_updater: ProgressStub) -> (r: Result<(u64, OutWriter)>)`
+//@ block `progress_updater: Option<Arc<dyn ProgressUpdater>>, ) -> Result<u64> {`
+//@ sig `fn reconstruct_file_to_writer_body(&self, terms: Vec<CASReconstructionTerm>, fetch_info: FetchInfoStub, offset_into_first_range: u64, byte_range: Option<FileRange>, writer: &OutputProvider, progress_updater: ProgressStub) -> (r: Result<(u64, OutWriter)>)`
 //@ epilogue `.vx_with(writer)`
+//@ subst `terms.iter().fold(0, |acc, x| acc + x.unpacked_length as u64)` => `vx_sum_unpacked(&terms)` :: R7 outline of an iterator fold; contract assumed (sum of unpacked_length, no overflow)
+//@ subst `terms.into_iter().map(|term| { get_one_term( self.http_client.clone(), self.chunk_cache.clone(), term, fetch_info.clone(), self.range_download_single_flight.clone(), ) })` => `self.vx_term_futures(terms, &fetch_info)` :: R7 outline: iterator of network futures (get_one_term per term, in plan order); contract assumed
+//@ subst `futures::stream::iter(futs_iter).buffered(*NUM_CONCURRENT_RANGE_GETS).enumerate()` => `vx_buffered_enumerate(futs_iter)` :: R11 stub: order-preserving buffered stream, numbered from 0
 //@ subst `progress_updater.as_ref().inspect(|updater| updater.update(len_written));` => `vx_progress(&progress_updater, len_written);` :: R7 outline: closure over Option<Arc<dyn ProgressUpdater>>; no effect on the output
 //@ contract
     requires
-        futs_buffered_enumerated.pos() == 0,
-        writer.written() == Seq::<u8>::empty(),
+        // plan-validity domain: a byte range has start <= end (else `range.end - range.start` underflows)
+        byte_range matches Some(rg) ==> rg.start <= rg.end,
+        sum_unpacked(terms@, terms@.len() as int) <= u64::MAX,
         // plan-validity domain: the first-term offset lies inside the first term (else `&term_data[start..end]` panics)
-        plan_ok(futs_buffered_enumerated.items(), offset_into_first_range as int, total_len as int),
+        plan_ok(self.plan_data(terms@), offset_into_first_range as int, req_total(byte_range, terms@)),
         // machine arithmetic: `remaining_len + start as u64`
-        offset_into_first_range + total_len <= u64::MAX,
+        offset_into_first_range + req_total(byte_range, terms@) <= u64::MAX,
     ensures
-        r matches Ok(p) ==> ({
-            let data = futs_buffered_enumerated.items();
-            let n = data.len() as int;
-            let off = offset_into_first_range as int;
-            let w = plan_written(data, off, total_len as int, n);
-            &&& p.1.offset() == writer.offset()
-            // output == concat(term data)[off .. off + w],  w == min(total_len, sum(unpacked) - off)
-            &&& /*@C17*/ p.1.written() == pieces(data, off, total_len as int, n)
-            &&& /*@C17*/ n > 0 ==> off + w <= cat(data, n).len() && p.1.written() == cat(data, n).subrange(off, off + w)
-            &&& /*@C17*/ n == 0 ==> p.1.written().len() == 0
-            // reported length == bytes written, when the byte range lies within the plan
-            &&& /*@C17*/ range_in_plan(data, off, total_len as int) && n > 0 ==> p.0 == p.1.written().len()
-        }),
-//@ body-start
-    let ghost data = futs_buffered_enumerated.items();
+        /*@C17*/ r matches Ok(p) ==> p.1.offset() == 0,
+        // output == the pieces in plan order == concat(term data)[off .. off + w],  w == min(total_len, sum(unpacked) - off)
+        /*@C17*/ r matches Ok(p) ==> p.1.written() == pieces(self.plan_data(terms@), offset_into_first_range as int, req_total(byte_range, terms@), terms@.len() as int),
+        /*@C17*/ r matches Ok(p) ==> terms@.len() > 0 ==> seq_out_is_slice(self.plan_data(terms@), offset_into_first_range as int, req_total(byte_range, terms@), p.1.written()),
+        /*@C17*/ r matches Ok(p) ==> terms@.len() == 0 ==> p.1.written().len() == 0,
+        // reported length == bytes written, when the byte range lies within the plan
+        /*@C17*/ r matches Ok(p) ==> terms@.len() > 0 && range_in_plan(self.plan_data(terms@), offset_into_first_range as int, req_total(byte_range, terms@)) ==> p.0 == p.1.written().len(),
+        // whole file (no byte range, offset 0): everything is written
+        /*@C17*/ r matches Ok(p) ==> byte_range is None && offset_into_first_range == 0 && terms@.len() > 0 ==> p.1.written() == cat(self.plan_data(terms@), terms@.len() as int) && p.0 == p.1.written().len(),
+//@ before `let mut remaining_len`
+    let ghost data = self.plan_data(terms@);
     let ghost off = offset_into_first_range as int;
     let ghost total = total_len as int;
     let ghost mut i: int = 0;
     let ghost woff = writer.offset();
+    let ghost nterms = terms@.len() as int;
+    proof {
+        assert(total == req_total(byte_range, terms@));
+        lemma_sum_unpacked_is_sum_len(terms@, data, nterms);
+    }
 //@ loop 1
         invariant
             data == futs_buffered_enumerated.items(), off == offset_into_first_range as int, total == total_len as int,
@@ -332,9 +365,27 @@ pub proof fn lemma_par_reported(data: Seq<Seq<u8>>, off: int, total: int, n: int
             let n = data.len() as int;
             lemma_plan_state(data, off, total, n);
             lemma_pieces_len(data, off, total, n);
-            if n > 0 { lemma_pieces_slice(data, off, total, n); }
+            if n > 0 {
+                lemma_pieces_slice(data, off, total, n);
+                lemma_cat_len(data, n);
+                if byte_range is None && off == 0 { assert(cat(data, n).subrange(0, cat(data, n).len() as int) =~= cat(data, n)); }
+            }
         }
 //@ end
+}
+spec fn req_total(byte_range: Option<FileRange>, terms: Seq<CASReconstructionTerm>) -> int {
+    match byte_range { Some(rg) => rg.end - rg.start, None => sum_unpacked(terms, terms.len() as int) }
+}
+spec fn seq_out_is_slice(data: Seq<Seq<u8>>, off: int, total: int, out: Seq<u8>) -> bool {
+    let n = data.len() as int;
+    let w = plan_written(data, off, total, n);
+    0 <= w && off + w <= cat(data, n).len() && out == cat(data, n).subrange(off, off + w)
+}
+proof fn lemma_sum_unpacked_is_sum_len(terms: Seq<CASReconstructionTerm>, data: Seq<Seq<u8>>, n: int)
+    requires 0 <= n <= terms.len(), data.len() == terms.len(), forall|i: int| 0 <= i < terms.len() ==> (#[trigger] data[i]).len() == terms[i].unpacked_length,
+    ensures sum_unpacked(terms, n) == sum_len(data, n),
+    decreases n
+{ if n > 0 { lemma_sum_unpacked_is_sum_len(terms, data, n - 1); } }
 
 // ======================================================================================================================
 // (iii) fetch side: range guard and trimming of `get_one_term`, range check and positioned write of `write_term`
@@ -357,7 +408,7 @@ spec fn fetched_ok(data: Seq<u8>, cbi: Seq<u32>, nchunks: int) -> bool {
 }
 //@ extract cas_client/src/remote_client.rs region get_one_term
 //@ from-after `&chunk_byte_indices, &data)?; }`
-//@ to `Ok(data)`
+//@ to-before `}` #9
 //@ sig `fn trim_to_term(term: CASReconstructionTerm, fetch_term: CASReconstructionFetchInfo, mut data: Vec<u8>, chunk_byte_indices: Vec<u32>) -> (r: Result<Vec<u8>>)`
 //@ subst `format!("result term data length {} did not match expected value {}", data.len(), term.unpacked_length)` => `vx_fmt_len_mismatch(data.len(), term.unpacked_length)` :: R7 outline: format! of an error message
 //@ contract
@@ -386,22 +437,28 @@ spec fn fetched_ok(data: Seq<u8>, cbi: Seq<u32>, nchunks: int) -> bool {
         proof { assert(data@ =~= data0.subrange(start_byte_index as int, end_byte_index as int)); }
 //@ end
 
+// the whole of `get_one_term` as `write_term` sees it (its trimming block and guards are verified above; network and cache assumed)
+#[verifier::external_body]
+fn get_one_term(http_client: HttpStub, chunk_cache: CacheStub, term: CASReconstructionTerm, fetch_info: FetchInfoStub, range_download_single_flight: SingleFlightStub) -> (r: Result<Vec<u8>>)
+    ensures r matches Ok(v) ==> v@ == term_payload(term),
+{ unimplemented!() }
 impl TermWriteTask {
+// the WHOLE body of `write_term`
 //@ extract cas_client/src/remote_client.rs in `impl TermWriteTask` region write_term
-//@ from-after `.log_error("error fetching 1 term")?;`
-//@ to `Ok(len)`
-//@ sig `fn write_term_tail(self, term_range: std::ops::Range<usize>, term_data: Vec<u8>, file_offset: u64) -> (r: Result<(u64, OutWriter)>)`
+//@ block `file_offset: u64) -> Result<u64> {`
+//@ sig `fn write_term_body(self, term: CASReconstructionTerm, term_range: std::ops::Range<usize>, file_offset: u64) -> (r: Result<(u64, OutWriter)>)`
 //@ epilogue `.vx_with(writer)`
+//@ subst `self.semaphore.acquire_owned().map_err(|_| CasClientError::Other("couldn't acquire semaphore".to_string()))?` => `vx_acquire(&self.semaphore)?` :: R11 stub: tokio semaphore permit (scheduling only) and its error-conversion closure
 //@ contract
     requires
         // from the planner (par_plan_term): start <= end (else `term_range.end - term_range.start` underflows)
         term_range.start <= term_range.end,
     ensures
-        /*@C17*/ term_range.end > term_data@.len() ==> r is Err,
+        /*@C17*/ term_range.end > term_payload(term).len() ==> r is Err,
         // one positioned write of term_data[start..end] at file_offset; reported length == bytes written
-        /*@C17*/ r matches Ok(p) ==> p.1.offset() == file_offset
-            && p.1.written() == term_data@.subrange(term_range.start as int, term_range.end as int)
-            && p.0 == p.1.written().len(),
+        /*@C17*/ r matches Ok(p) ==> p.1.offset() == file_offset,
+        /*@C17*/ r matches Ok(p) ==> term_range.end <= term_payload(term).len() && p.1.written() == term_payload(term).subrange(term_range.start as int, term_range.end as int),
+        /*@C17*/ r matches Ok(p) ==> p.0 == p.1.written().len(),
 //@ end
 }
 
